@@ -888,6 +888,97 @@ Proof.
     rewrite F2b by lia. apply F1b. assumption.
 Qed.
 
+(* ------------------------------------------------------------------ what a copy looks like *)
+
+Definition fn_purity (h : tyh) : option purity := match h with HFn _ _ p => Some p | _ => None end.
+Definition copy_like (h h' : tyh) : Prop := same_shape h h' = true /\ fn_purity h = fn_purity h'.
+
+Lemma copy_list_length R : forall l m s l' m' s', copy_list R l m s = Ok ((l', m'), s') -> length l' = length l.
+Proof.
+  induction l as [|x xs IH]; intros m s l' m' s' H; cbn [copy_list] in H.
+  - injection H as <- _ _. reflexivity.
+  - apply bind_inv in H as (r & s1 & _ & H). apply bind_inv in H as ([rs ms] & s2 & H2 & H).
+    injection H as <- _ _. cbn [fst length]. f_equal. eapply IH; eassumption.
+Qed.
+
+Lemma copy_fields_keys R : forall l m s l' m' s', copy_fields R l m s = Ok ((l', m'), s') -> keys l' = keys l.
+Proof.
+  induction l as [|[k [sp x]] xs IH]; intros m s l' m' s' H; cbn [copy_fields] in H.
+  - injection H as <- _ _. reflexivity.
+  - apply bind_inv in H as (r & s1 & _ & H). apply bind_inv in H as ([rs ms] & s2 & H2 & H).
+    injection H as <- _ _. unfold keys. cbn [fst map]. f_equal. eapply IH; eassumption.
+Qed.
+
+Lemma keys_sub_of_eq f g : keys f = keys g -> keys_sub f g = true /\ keys_sub g f = true.
+Proof. intros E. split; apply keys_sub_spec; intros k; rewrite E; auto. Qed.
+
+Lemma copy_ty_like R t m s t' m' s' : copy_ty R t m s = Ok ((t', m'), s') -> copy_like t t'.
+Proof.
+  unfold copy_ty, copy_like. intros H.
+  destruct t; try (injection H as <- _ _; split; [apply same_shape_refl|reflexivity]).
+  - apply bind_inv in H as ([l' ml] & s1 & H1 & H). injection H as <- _ _. cbn [fst same_shape fn_purity].
+    rewrite (copy_list_length _ _ _ _ _ _ _ H1), PeanoNat.Nat.eqb_refl. auto.
+  - apply bind_inv in H as (r & s1 & H1 & H). injection H as <- _ _. auto.
+  - apply bind_inv in H as ([l' ml] & s1 & H1 & H). apply bind_inv in H as (rr & s2 & H2 & H).
+    injection H as <- _ _. cbn [fst same_shape fn_purity].
+    rewrite (copy_list_length _ _ _ _ _ _ _ H1), PeanoNat.Nat.eqb_refl. auto.
+  - apply bind_inv in H as ([f' mf] & s1 & H1 & H). apply bind_inv in H as (ra & s2 & H2 & H).
+    injection H as <- _ _. cbn [fst same_shape fn_purity].
+    destruct (keys_sub_of_eq _ _ (copy_fields_keys _ _ _ _ _ _ _ H1)) as [A B]. rewrite A, B. auto.
+  - apply bind_inv in H as ([f' mf] & s1 & H1 & H). apply bind_inv in H as (ra & s2 & H2 & H).
+    injection H as <- _ _. cbn [fst same_shape fn_purity]. rewrite N.eqb_refl. auto.
+  - apply bind_inv in H as ([f' mf] & s1 & H1 & H). apply bind_inv in H as (ra & s2 & H2 & H).
+    injection H as <- _ _. cbn [fst same_shape fn_purity].
+    destruct (keys_sub_of_eq _ _ (copy_fields_keys _ _ _ _ _ _ _ H1)) as [A B]. rewrite A, B. auto.
+Qed.
+
+Lemma copy_body_shape R (P : gpres R) old s r m' s' :
+  wf s -> copy_body R old [] s = Ok ((r, m'), s') ->
+  exists h h', head s old = Some h /\ head s' r = Some h' /\ copy_like h h'.
+Proof.
+  intros W H. unfold copy_body in H.
+  apply bind_inv in H as (ro & s0 & H0 & H). apply find_inv in H0 as [-> H0].
+  cbn [copy_lookup] in H.
+  apply bind_inv in H as (new & s1 & H1 & H). rewrite push_type_eq in H1. injection H1 as <- <-.
+  destruct (framed_push HUnknown s _ _ W (push_type_eq _ _)) as [W1 F1].
+  pose proof (lk_push_new HUnknown s) as N1.
+  set (new := next s) in *. set (s1 := push_st HUnknown s) in *.
+  assert (Nx1 : next s1 = Pos.succ new) by reflexivity.
+  apply bind_inv in H as (n & s1' & Hn & H). apply find_node_inv in Hn as [-> _].
+  apply bind_inv in H as ([cs m2] & s2 & Hf & H).
+  assert (FF : framed (foldM (fun acc c => r <- copy_constr R c (snd acc);; ret (cinsert (fst r) (fst acc), snd r))
+                             (ncons n) ([], [(ro, new)]))).
+  { apply framed_foldM. intros b c. apply framed_bind; [apply framed_copy_constr; assumption|intros; apply framed_ret]. }
+  destruct (FF _ _ _ W1 Hf) as [W2 F2].
+  assert (N2 : lk s2 new = Some (mkNode HUnknown new 1%N [])).
+  { destruct F2 as [_ F2]. rewrite F2; [assumption|lia]. }
+  apply bind_inv in H as (u3 & s3 & H3 & H). unfold set_cons in H3.
+  destruct (update_self new (fun n => mkNode (nty n) (nrep n) (nsize n) cs) _ _ _ _ (fun _ => eq_refl) W2 N2 eq_refl H3)
+    as (W3 & Nx3 & O3 & N3).
+  apply bind_inv in H as (t & s3' & Ht & H). apply find_type_inv in Ht as [-> Ht].
+  apply bind_inv in H as ([t' m3] & s4 & H4 & H).
+  pose proof (copy_ty_like _ _ _ _ _ _ _ H4) as CL.
+  assert (F4 : wf s4 /\ frame s3 s4) by (eapply framed_copy_ty; eassumption).
+  destruct F4 as [W4 F4].
+  assert (N4 : lk s4 new = Some (mkNode HUnknown new 1%N cs)).
+  { destruct F4 as [_ F4]. rewrite F4; [assumption|]. destruct F2 as [F2 _]. rewrite Nx3. lia. }
+  apply bind_inv in H as (u5 & s5 & H5 & H). unfold set_type in H5.
+  destruct (update_self new (fun n => mkNode t' (nrep n) (nsize n) (ncons n)) _ _ _ _ (fun _ => eq_refl) W4 N4 eq_refl H5)
+    as (W5 & Nx5 & O5 & N5).
+  injection H as <- _ <-.
+  (* the head of ro did not change between s and s3 *)
+  destruct (head_of_rep _ _ _ W H0) as [Hro Rro].
+  destruct (root_of _ _ _ W H0) as (nro & Lro & Ero).
+  assert (Lt : ro < new) by (destruct W as [W1' _]; eapply W1'; eassumption).
+  assert (L3 : lk s3 ro = Some nro).
+  { rewrite O3 by lia. destruct F2 as [_ F2]. rewrite F2 by lia. destruct F1 as [_ F1]. rewrite F1 by assumption. assumption. }
+  assert (Hs : head s old = Some t).
+  { rewrite <- Hro. unfold head in Ht |- *. rewrite L3 in Ht. rewrite Ero in Ht. rewrite L3 in Ht.
+    rewrite Lro, Ero, Lro. assumption. }
+  exists t, t'. split; [assumption|]. split; [|assumption].
+  unfold head. rewrite N5. cbn [nrep]. rewrite N5. reflexivity.
+Qed.
+
 (* ------------------------------------------------------------------ all graph-level functions, every fuel *)
 
 Theorem gfix_pres : forall g, gpres (gfix g).
@@ -901,6 +992,18 @@ Proof.
     + now apply pres_div_body.
     + now apply pres_divres_body.
     + now apply framed_copy_body.
+Qed.
+
+(* fn copy: a fresh class whose head has the shape (and, for function types, the purity) of the original's;
+   nothing that existed is touched *)
+Theorem copy_shape g a s r s' :
+  wf s -> copy (gfix g) a s = Ok (r, s') ->
+  wf s' /\ frame s s' /\ exists h h', head s a = Some h /\ head s' r = Some h' /\ copy_like h h'.
+Proof.
+  intros W H. unfold copy in H. apply bind_inv in H as ([r0 m'] & s1 & H1 & H). injection H as <- <-.
+  destruct g as [|g]; [discriminate|]. cbn [gfix gstep g_copy] in H1.
+  destruct (framed_copy_body _ (gfix_pres g) _ _ _ _ _ W H1) as [W' F'].
+  split; [assumption|]. split; [assumption|]. eapply copy_body_shape; [apply gfix_pres|eassumption..].
 Qed.
 
 (* ------------------------------------------------------------------ the syntax-level functions *)
